@@ -487,8 +487,19 @@ func vc20Requirements() (reqs []vc20Requirement) {
 		name: "ddr ipv4_hints are IPv4 addresses and ipv6_hints are IPv6 addresses",
 		broken: func(c *configuration) (bool, string) {
 			for _, g := range c.ServerGroups {
+				// "If it is set to false, DDR domain name queries receive an
+				// NXDOMAIN response": the records of a disabled DDR are not
+				// sent, so only what is done with them at start-up counts.
+				if g.DDR == nil || !g.DDR.Enabled {
+					continue
+				}
+
 				for _, recs := range []map[string]*ddrRecord{g.DDR.DeviceRecords, g.DDR.PublicRecords} {
 					for name, r := range recs {
+						if r == nil {
+							return true, name + ": null record"
+						}
+
 						for _, a := range r.IPv4Hints {
 							if !a.Is4() {
 								return true, fmt.Sprintf("%s: ipv4 hint %q", name, a)
@@ -510,8 +521,19 @@ func vc20Requirements() (reqs []vc20Requirement) {
 		name: "ddr ipv6_hints can be sent as an SVCB ipv6hint (are not IPv4-mapped)", finding: vc20KnownDDRMappedHint,
 		broken: func(c *configuration) (bool, string) {
 			for _, g := range c.ServerGroups {
+				// "If it is set to false, DDR domain name queries receive an
+				// NXDOMAIN response": the records of a disabled DDR are not
+				// sent, so only what is done with them at start-up counts.
+				if g.DDR == nil || !g.DDR.Enabled {
+					continue
+				}
+
 				for _, recs := range []map[string]*ddrRecord{g.DDR.DeviceRecords, g.DDR.PublicRecords} {
 					for name, r := range recs {
+						if r == nil {
+							return true, name + ": null record"
+						}
+
 						for _, a := range r.IPv6Hints {
 							if a.Is4In6() {
 								return true, fmt.Sprintf("%s: ipv6 hint %q", name, a)
@@ -665,8 +687,19 @@ func vc20Requirements() (reqs []vc20Requirement) {
 		name: "ddr records: a non-zero https_port differs from tls_port, doh_path is set with https_port, some port is set",
 		broken: func(c *configuration) (bool, string) {
 			for _, g := range c.ServerGroups {
+				// "If it is set to false, DDR domain name queries receive an
+				// NXDOMAIN response": the records of a disabled DDR are not
+				// sent, so only what is done with them at start-up counts.
+				if g.DDR == nil || !g.DDR.Enabled {
+					continue
+				}
+
 				for _, recs := range []map[string]*ddrRecord{g.DDR.DeviceRecords, g.DDR.PublicRecords} {
 					for name, r := range recs {
+						if r == nil {
+							return true, name + ": null record"
+						}
+
 						switch {
 						case r.HTTPSPort != 0 && r.HTTPSPort == r.TLSPort,
 							r.HTTPSPort != 0 && r.DoHPath == "",
@@ -693,6 +726,18 @@ func vc20Requirements() (reqs []vc20Requirement) {
 	})
 
 	return reqs
+}
+
+// vc20Broken evaluates a requirement.  An accepted configuration in which a
+// section the requirement looks at is absent breaks the requirement.
+func vc20Broken(r vc20Requirement, c *configuration) (bad bool, got string) {
+	defer func() {
+		if v := recover(); v != nil {
+			bad, got = true, fmt.Sprintf("a section that validation guarantees is absent: %v", v)
+		}
+	}()
+
+	return r.broken(c)
 }
 
 // vc20Names reports whether errText names one of the mutated properties.  With
@@ -909,6 +954,7 @@ func (ck *vc20Checker) vc20EvalClasses(t vc20T, muts []vc20Mutation, pair bool, 
 		classes = append(classes, "kind:"+string(m.field.kind), "val:"+m.val.class)
 	}
 
+	classes = append(classes, ck.fx.vc20DisabledSectionClasses(applied)...)
 	sort.Strings(keyParts)
 	ntKey := strings.Join(keyParts, ";")
 	if pair {
@@ -990,7 +1036,7 @@ func (ck *vc20Checker) vc20EvalClasses(t vc20T, muts []vc20Mutation, pair bool, 
 	var broken, findings []string
 	unlisted := false
 	for _, r := range ck.reqs {
-		bad, got := r.broken(c)
+		bad, got := vc20Broken(r, c)
 		if !bad || (r.onlyIfFails && len(o.failures) == 0) {
 			continue
 		}
@@ -1177,6 +1223,26 @@ func (ck *vc20Checker) vc20DrawMutations(t *rapid.T, weighted []int) (muts []vc2
 		muts = append(muts, vc20Mutation{field: f, val: rapid.SampledFrom(vals).Draw(t, "value")})
 	}
 
+	// An invalid value is often only looked at, or only skipped, depending on
+	// a switch of an enclosing object: switch one of them as well.
+	for _, m := range muts {
+		if _, invalid := vc20InvalidClasses[m.val.class]; !invalid {
+			continue
+		}
+
+		govs := fx.vc20Governors(m.field)
+		if len(govs) == 0 || !rapid.Bool().Draw(t, "withSwitch") {
+			continue
+		}
+
+		sw := rapid.SampledFrom(govs).Draw(t, "switch")
+		if vals := fx.vc20SwitchValues(sw); len(vals) > 0 {
+			muts = append(muts, vc20Mutation{field: sw, val: rapid.SampledFrom(vals).Draw(t, "switchValue")})
+		}
+
+		break
+	}
+
 	return muts, false
 }
 
@@ -1245,6 +1311,163 @@ func TestVerifC20Singles(t *testing.T) {
 	col.report()
 }
 
+// vc20InvalidClasses are the classes of values that are invalid, or at least
+// suspicious, almost everywhere.
+var vc20InvalidClasses = map[string]struct{}{
+	"null": {}, "null-list-element": {}, "empty": {}, "empty-list-element": {}, "missing": {},
+	"zero": {}, "neg": {}, "wrong-type": {}, "wrong-enum": {}, "wrong-family": {}, "unspecified-address": {},
+	"unparsable": {}, "dangling-ref": {}, "max-family+1": {}, "huge": {}, "duplicate-element": {}, "ipv4-mapped": {},
+}
+
+// vc20IsSwitch reports whether f is a property that switches the meaning of
+// the object it belongs to: a flag or an enumeration.
+func vc20IsSwitch(f *vc20Field) (ok bool) {
+	_, isKey := f.path[len(f.path)-1].(string)
+
+	return isKey && (f.kind == vc20KindBool || f.kind == vc20KindEnum)
+}
+
+// vc20SwitchValues returns the values that really switch: the other value of a
+// flag, the other values of an enumeration.
+func (fx *vc20Fixture) vc20SwitchValues(sw *vc20Field) (vals []vc20Value) {
+	for _, v := range vc20Values(sw, fx.enums, nil) {
+		switch v.class {
+		case "flip", "other-enum", "set-true":
+			vals = append(vals, v)
+		}
+	}
+
+	return vals
+}
+
+// vc20Governors returns the switches of the objects that enclose f: the flags
+// and enumerations that are properties of a mapping on the path to f.
+func (fx *vc20Fixture) vc20Governors(f *vc20Field) (sws []*vc20Field) {
+	for _, sw := range fx.fields {
+		if sw == f || !vc20IsSwitch(sw) {
+			continue
+		}
+
+		parent := sw.path[:len(sw.path)-1]
+		if len(parent) >= len(f.path) {
+			continue
+		}
+
+		inside := true
+		for i, p := range parent {
+			inside = inside && f.path[i] == p
+		}
+
+		if inside {
+			sws = append(sws, sw)
+		}
+	}
+
+	return sws
+}
+
+// vc20SectionName is the dotted path with list indexes generalised.
+func vc20SectionName(path []any) (name string) {
+	parts := make([]string, 0, len(path))
+	for _, p := range path {
+		if s, ok := p.(string); ok {
+			parts = append(parts, s)
+		} else {
+			parts = append(parts, "*")
+		}
+	}
+
+	return strings.Join(parts, ".")
+}
+
+// vc20DisabledSectionClasses returns the labels of a case that puts an invalid
+// value into a section whose enabled flag is (or is made) false.
+func (fx *vc20Fixture) vc20DisabledSectionClasses(applied []vc20Mutation) (classes []string) {
+	seen := map[string]struct{}{}
+	for _, m := range applied {
+		if _, invalid := vc20InvalidClasses[m.val.class]; !invalid {
+			continue
+		}
+
+		for _, sw := range fx.vc20Governors(m.field) {
+			if sw.kind != vc20KindBool || !strings.Contains(sw.key, "enabled") {
+				continue
+			}
+
+			on, _ := sw.orig.(bool)
+			for _, other := range applied {
+				if other.field == sw {
+					on, _ = other.val.v.(bool)
+				}
+			}
+
+			section := vc20SectionName(sw.path[:len(sw.path)-1])
+			if _, dup := seen[section]; on || dup {
+				continue
+			}
+
+			seen[section] = struct{}{}
+			classes = append(classes, "invalid-value-in-disabled-section:"+section)
+		}
+	}
+
+	if len(classes) > 0 {
+		classes = append(classes, "invalid-value-in-disabled-section")
+	}
+
+	return classes
+}
+
+// TestVerifC20DisabledSections enumerates every switch (flag or enumeration)
+// with every property nested anywhere below the object the switch belongs to:
+// the switch takes its other values, the nested property its invalid values
+// (null, empty, zero, negative, wrong type, wrong family ...).  A section that
+// skips validation when it is switched off must skip the use of its values as
+// well: whatever is accepted goes through the start-up path and serves.  (The
+// direct children of the object are paired with the switch, with all values, by
+// TestVerifC20Switches.)
+func TestVerifC20DisabledSections(t *testing.T) {
+	st := vstat.New("C20", "cmd.disabled", "bounded-exhaustive: every switch (flag or enum) x every property nested below its object x (other values of the switch) x (invalid values of the property); "+vc20Rule,
+		"accepted", "client-ipv4-mapped", "ddr-query-served", "rejected-named", "exercise-full",
+		"invalid-value-in-disabled-section", "invalid-value-in-disabled-section:server_groups.*.ddr",
+		"invalid-value-in-disabled-section:filtering_groups.*.rule_lists", "val:null", "val:flip")
+	st.SetExhaustive()
+	st.Finish(t)
+
+	ck := vc20NewChecker(t, st)
+	col := &vc20Collector{t: t}
+	fx := ck.fx
+	sh := vc20NewShard()
+	for _, f := range fx.fields {
+		for _, sw := range fx.vc20Governors(f) {
+			if len(f.path) <= len(sw.path) {
+				// A sibling of the switch.
+				continue
+			}
+
+			for _, vs := range fx.vc20SwitchValues(sw) {
+				for _, vf := range vc20Values(f, fx.enums, nil) {
+					if _, invalid := vc20InvalidClasses[vf.class]; !invalid {
+						continue
+					}
+
+					if !sh.mine() {
+						continue
+					}
+
+					col.run(func() {
+						ck.vc20Eval(col, []vc20Mutation{{field: sw, val: vs}, {field: f, val: vf}}, false)
+					})
+				}
+			}
+		}
+	}
+
+	st.Extra("goroutines_at_end", runtime.NumGoroutine())
+	st.Extra("queries_that_reached_the_loopback_upstream", ck.fx.upsCount.Load())
+	col.report()
+}
+
 // TestVerifC20Switches enumerates, for every object of the configuration, every
 // pair of a switch or enum property and another property of the same object
 // with all their values: the requirements on many values depend on a sibling
@@ -1253,7 +1476,10 @@ func TestVerifC20Singles(t *testing.T) {
 func TestVerifC20Switches(t *testing.T) {
 	st := vstat.New("C20", "cmd.switches", "bounded-exhaustive: per mapping, every (bool or enum child, other child: scalar, list or object) pair x all values of both; "+vc20Rule,
 		"accepted", "client-ipv4-mapped", "ddr-query-served", "rejected-named", "exercise-full", "kind:enum", "kind:bool", "kind:node", "val:zero", "val:flip", "val:other-enum",
-		"val:set-true", "val:null")
+		"val:set-true", "val:null", "invalid-value-in-disabled-section",
+		"invalid-value-in-disabled-section:ratelimit.connection_limit", "invalid-value-in-disabled-section:dnsdb",
+		"invalid-value-in-disabled-section:upstream.healthcheck", "invalid-value-in-disabled-section:ratelimit.tcp",
+		"invalid-value-in-disabled-section:ratelimit.quic")
 	st.SetExhaustive()
 	st.Finish(t)
 
@@ -1517,6 +1743,7 @@ func TestVerifC20Thresholds(t *testing.T) {
 	ck := vc20NewChecker(t, st)
 	col := &vc20Collector{t: t}
 	fx := ck.fx
+	sh := vc20NewShard()
 	for _, grp := range fx.siblings {
 		for i, ai := range grp {
 			for _, bi := range grp[i+1:] {
@@ -1524,6 +1751,10 @@ func TestVerifC20Thresholds(t *testing.T) {
 				thresholds := vc20Thresholds(a, b)
 				for _, va := range thresholds {
 					for _, vb := range thresholds {
+						if !sh.mine() {
+							continue
+						}
+
 						col.run(func() { ck.vc20Eval(col, vc20ThresholdPair(a, b, va, vb), true) })
 					}
 				}
@@ -1541,7 +1772,7 @@ func TestVerifC20Mutate(t *testing.T) {
 	st := vstat.New("C20", "cmd.mutate", "rapid: 1-4 fields (biased to one), properties of one object, a pair of sibling thresholds in all orders, or a generated server group of 1-3 servers x tls section states; "+vc20Rule,
 		"accepted", "client-ipv4-mapped", "ddr-query-served", "rejected-named", "rejected-parse", "exercise-full", "threshold-pair",
 		"dot-real-answered", "doh-real-answered", "doq-real-answered", "dnscrypt-real-answered", "quic-only-group",
-		"val:empty-list-element", "val:wrong-family",
+		"val:empty-list-element", "val:wrong-family", "invalid-value-in-disabled-section",
 		"mutations:1", "mutations:2", "mutations:3",
 		"val:zero", "val:neg", "val:missing", "val:null", "val:huge",
 		"kind:prefixlen", "kind:duration", "kind:size", "kind:count", "kind:enum", "kind:xref",
